@@ -71,6 +71,9 @@ def tys_go(names):
 def go_combos(rng, spec, L_unused):
     T = spec["id"]
     structs = {s["name"] for s in spec["structs"]}
+    # a homonym shape (optics_common.HOMONYM): the names in `local` mean function-local types of another underlying type there,
+    # the tables XORABLE / AUTO speak of the package-level ones
+    local = spec.get("local", {})
     out = ["func combos%s() []combo {" % T, "\tcs := []combo{}"]
 
     def add_lens(kind, req, tynames, B, expr):
@@ -114,7 +117,7 @@ def go_combos(rng, spec, L_unused):
     n = 0
     for e in cands:
         l = leaf_for(spec, T, e, rng)
-        if e["type"] in XORABLE and n < 4:
+        if e["type"] in XORABLE and e["type"] not in local and n < 4:
             n += 1
             A = e["type"]
             o = {"o": "conv", "x": leaf_json(l, e["path"]), "code": 1, "fpath": e["path"]}
@@ -128,8 +131,10 @@ def go_combos(rng, spec, L_unused):
             else:
                 add_lens("setter", {"optic": dict(o, o="setter"), "kind": "setter"}, [T, A], A,
                          "optics.Setter(%s, xorBytes[%s])" % (leaf_go(l), A))
-        if e["type"] in AUTO and rng.random() < 0.6:
+        if e["type"] in AUTO and e["type"] not in local and rng.random() < 0.6:
             fn, B = AUTO[e["type"]]
+            if B in local:
+                B = "pkg" + B
             o = {"o": "bimap", "x": leaf_json(l, e["path"]), "code": 0, "fpath": e["path"]}
             add_lens(fn.lower(), {"optic": o, "kind": "lens"}, [T, e["type"], B], B,
                      "optics.%s[%s, %s, %s](%s)" % (fn, T, e["type"], B, ", ".join(json.dumps(a) for a in l["attr"])))
